@@ -163,7 +163,10 @@ def main(tier, seed, replay):
             pts = corpus.sample_points(wrng, d, 12)
             cross = d['cross']
         else:
-            w = wg.gen_world(wrng, {'nfeatures': (1, 4), 'p_grains': 0.6, 'p_velocity': 0.6, 'ncomp': 4})
+            # a fifth of the generated worlds carry random grains models (no seed entry): the tool's world must be seeded like the
+            # library's default world (seed 1) and evaluate the rows in file order, once each - the monitor replays exactly that
+            rnd_world = wrng.random() < 0.2
+            w = wg.gen_world(wrng, {'nfeatures': (1, 4), 'p_grains': 0.9 if rnd_world else 0.6, 'p_velocity': 0.6, 'ncomp': 4, 'random_models': rnd_world})
             ctx = w['truth']['ctx']
             wb = os.path.join(workdir, 'w%d.wb' % i)
             with open(wb, 'w') as f:
@@ -172,6 +175,9 @@ def main(tier, seed, replay):
             cross = w['truth']['cross']
         malformed = wrng.choice([None, None, None, None, 'too-few', 'too-few', 'too-many', 'glued', 'non-numeric'])
         text, spec = gen_dat(wrng, ctx, pts, cross, malformed)
+        if wb.startswith(workdir) and rnd_world and spec['ngc'] == 0:
+            # make sure the random draws are asked for
+            text, spec = gen_dat(random.Random(wrng.getrandbits(32) | 1), ctx, pts, cross, None)
         dat = os.path.join(workdir, 'd%d.dat' % i)
         with open(dat, 'w') as f:
             f.write(text)
